@@ -219,12 +219,22 @@ class Program:
         L.append('    [[graph]]')
         for s in self.sections:
             L.append(f'        {s.heading} = """')
+            here = set()
             for expr, targets in s.lines:
                 rhs = ' & '.join(self.render_target(t) for t in targets)
+                here.update(targets)
                 if expr is None:
                     L.append(f'            {rhs}')
                 else:
                     L.append(f'            {self.render_expr(expr)} => {rhs}')
+                    for a in atoms(expr):
+                        if a.kind == 'rel' and a.off == 0:
+                            here.add(a.task)
+            for t in sorted(here):
+                xs = self.tasks[t].xtriggers
+                if xs:
+                    L.append('            ' + ' & '.join(f'@{x}' for x in xs)
+                             + f' => {self.render_target(t)}')
             L.append('        """')
         L.append('[runtime]')
         L.append('    [[root]]')
